@@ -21,6 +21,19 @@ HOST_MAGIC = {(3, 8): 3413, (3, 9): 3425, (3, 10): 3439, (3, 11): 3495, (3, 12):
 HOST_TRIPLE = {(3, 8): (3, 8, 18), (3, 9): (3, 9, 18), (3, 10): (3, 10, 13), (3, 11): (3, 11, 7), (3, 12): (3, 12, 1), (3, 13): (3, 13, 0)}
 
 
+def is_generator(fn):
+    """does this function's *own* body contain a yield (nested functions, classes and lambdas are other scopes)"""
+    stack = list(getattr(fn, "body", [])) if not isinstance(fn, ast.Lambda) else []
+    while stack:
+        n = stack.pop()
+        if isinstance(n, (ast.Yield, ast.YieldFrom)):
+            return True
+        if isinstance(n, (ast.FunctionDef, ast.AsyncFunctionDef, ast.ClassDef, ast.Lambda)):
+            continue
+        stack.extend(ast.iter_child_nodes(n))
+    return False
+
+
 class FoldError(Exception):
     """The folder met something it cannot evaluate (opaque value, unsupported construct)."""
 
@@ -945,9 +958,8 @@ class Folder:
                 raise PyExc(TypeError, "unexpected keyword %s for %s" % (sorted(kwargs), f.qualname))
             if isinstance(node, ast.Lambda):
                 return self.ev(node.body, f.module.ns, f.module, local)
-            for n in ast.walk(node):
-                if isinstance(n, (ast.Yield, ast.YieldFrom)):
-                    raise FoldError("generator function %s" % f.qualname)
+            if is_generator(node):
+                raise FoldError("generator function %s" % f.qualname)
             try:
                 self.exec_block(node.body, f.module.ns, f.module, local)
                 return None
